@@ -106,7 +106,7 @@ Definition py_dec_body (s : str) : option pnum :=
     end.
 
 Definition py_dec (s0 : str) : option (bool * pnum) :=
-  let s := strip s0 in
+  let s := fstrip s0 in
   match s with
   | 45%N :: t => option_map (pair true) (py_dec_body t)
   | 43%N :: t => option_map (pair false) (py_dec_body t)
@@ -139,7 +139,7 @@ Definition value_parse_number (s : str) : option flt :=
 
 (* value.py value_parse_integer with the default radix: int(text, 10); ValueError -> None *)
 Definition value_parse_integer (s0 : str) : option Z :=
-  let s := strip s0 in
+  let s := fstrip s0 in
   let '(neg, t) := match s with 45%N :: t => (true, t) | 43%N :: t => (false, t) | _ => (false, s) end in
   match scan_digits t 0 0 false with
   | Some (v, n, []) => if n =? 0 then None else Some (if neg then - v else v)
